@@ -97,7 +97,15 @@ pub fn render(case: &Value, rng: &mut Rng, plain: bool) -> Program {
             continue;
         }
         if !text.is_empty() {
-            let sep = if plain { " " } else { [" ", " ", " ", "\n", "\n  ", " // é💣\n", "\t"][rng.below(7)] };
+            let mut sep = if plain { " " } else { [" ", " ", " ", "\n", "\n  ", " // é💣\n", "\t"][rng.below(7)] };
+            // documentation comments where Gleam attaches them: in front of a definition, of a variant and of a labelled
+            // field of a custom type
+            let prev = toks.last().map(|t: &Tok| t.t.as_str()).unwrap_or("");
+            let item_start = ctx.len() == 1 && matches!(s, "fn" | "pub" | "type" | "const") && prev != "pub";
+            let in_adt = ctx.last().map(|c| c == "ADT").unwrap_or(false) && (r == "def" || r == "fieldalt") && matches!(prev, "{" | "(" | "," | ")");
+            if !plain && (item_start || in_adt) && rng.chance(1, 3) {
+                sep = "\n/// doc é\n";
+            }
             // keep `fn name`, `const name` etc. readable; any whitespace is legal between tokens
             text.push_str(sep);
         }
